@@ -123,11 +123,9 @@ func (p c05Point) build() (expr string, raw any, norm any) {
 	case "bin", "cmp":
 		expr = ref(0) + " " + p.Op + " " + ref(1)
 	case "bin-in-map":
-		expr = "map(&(" + ref(0) + " " + p.Op + " @), [" + ref(1) + "])[0]"
+		expr = "let $p = " + ref(0) + " in map(&($p " + p.Op + " @), [" + ref(1) + "])[0]"
 	case "bin-in-projection":
-		expr = "[" + ref(1) + "][*].(" + ref(0) + " " + p.Op + " @) | [0]"
-	case "bin-in-sort_by":
-		expr = "sort_by([" + ref(1) + "], &(" + ref(0) + " " + p.Op + " @)) | [0] == " + ref(1) + " || " + ref(0) + " " + p.Op + " " + ref(1)
+		expr = "let $p = " + ref(0) + " in [" + ref(1) + "][*].[$p " + p.Op + " @] | [0][0]"
 	case "cmp-array":
 		expr = "[" + ref(0) + "] " + p.Op + " [" + ref(1) + "]"
 	case "unary":
